@@ -235,7 +235,14 @@ class C15Machine(Machine):
                     if has_dup:
                         out['probes']['duplicate_ids'] = out['probes'].get('duplicate_ids', 0) + 1
                         if rk == 'ok':
-                            V.append(violation('C15/duplicates-accepted', 'read_table', 'duplicated identifiers %r accepted' % ids))
+                            real = [i for i, _ in kept if not (isinstance(i, str) and i in NA_STRINGS)]
+                            if len({repr(i) for i in real}) == len(real):
+                                # the only repeated identifier is a missing-value spelling: those rows were dropped as
+                                # "rows without identifier" (the recorded NA-identifier finding), so no duplicate was seen
+                                V.append(violation('C15/roundtrip', 'row-ids/na-string-id-dropped',
+                                                   'ids read %r, written %r' % (list(t.index), ids)))
+                            else:
+                                V.append(violation('C15/duplicates-accepted', 'read_table', 'duplicated identifiers %r accepted' % ids))
                         continue
                     if rk != 'ok':
                         V.append(violation('C15/read-raises', 'read_table/' + rk, str(t)[:200]))
